@@ -125,6 +125,27 @@ type mutator struct {
 	f    func(e mtypes.ExternalEvent, seed int)
 }
 
+// bumpInt adds a delta chosen by the seed: small ones and exact multiples of 2^32 / 2^64 / 2^128 / 2^192, the
+// differences a fixed-width or truncating hash input would swallow.
+func bumpInt(x sdk.Int, base int64, s int) sdk.Int {
+	two := func(k uint, m int64) sdk.Int {
+		return sdk.NewIntFromBigInt(new(big.Int).Mul(new(big.Int).Lsh(big.NewInt(1), k), big.NewInt(m)))
+	}
+	switch s % 8 {
+	case 0:
+		return x.Add(two(32, 1))
+	case 1:
+		return x.Add(two(64, 1))
+	case 2:
+		return x.Add(two(64, int64(2+s%5)))
+	case 3:
+		return x.Add(two(128, 1))
+	case 4:
+		return x.Add(two(192, int64(1+s%3)))
+	}
+	return x.AddRaw(base + int64(s))
+}
+
 func otherAddr(a string, seed int) string {
 	b := sim.ExtUser(4 + seed%5).Hex()
 	if !strings.HasPrefix(a, "0x") {
@@ -171,7 +192,7 @@ func mutatorsFor(typ, chain string, fx *fixture) []mutator {
 			}},
 			{"Amount", func(e mtypes.ExternalEvent, s int) {
 				x := e.(*mtypes.SendToHubEvent)
-				x.Amount = x.Amount.AddRaw(int64(1 + s))
+				x.Amount = bumpInt(x.Amount, 1, s)
 			}},
 			{"Sender", func(e mtypes.ExternalEvent, s int) {
 				x := e.(*mtypes.SendToHubEvent)
@@ -200,11 +221,11 @@ func mutatorsFor(typ, chain string, fx *fixture) []mutator {
 			}},
 			{"Amount", func(e mtypes.ExternalEvent, s int) {
 				x := e.(*mtypes.TransferToChainEvent)
-				x.Amount = x.Amount.AddRaw(int64(1000000 + s))
+				x.Amount = bumpInt(x.Amount, 1000000, s)
 			}},
 			{"Fee", func(e mtypes.ExternalEvent, s int) {
 				x := e.(*mtypes.TransferToChainEvent)
-				x.Fee = x.Fee.AddRaw(int64(1000000 + s))
+				x.Fee = bumpInt(x.Fee, 1000000, s)
 			}},
 			{"Sender", func(e mtypes.ExternalEvent, s int) {
 				x := e.(*mtypes.TransferToChainEvent)
@@ -250,7 +271,7 @@ func mutatorsFor(typ, chain string, fx *fixture) []mutator {
 			}},
 			{"FeePaid", func(e mtypes.ExternalEvent, s int) {
 				x := e.(*mtypes.BatchExecutedEvent)
-				x.FeePaid = x.FeePaid.AddRaw(int64(1000 + s))
+				x.FeePaid = bumpInt(x.FeePaid, 1000, s)
 			}},
 			{"FeePayer", func(e mtypes.ExternalEvent, s int) {
 				x := e.(*mtypes.BatchExecutedEvent)
